@@ -790,6 +790,10 @@ where
         let new_len = len.checked_add(additional).expect("too many variables");
         let range = len as VarNo..new_len as VarNo;
 
+        // Memoised results may depend on the set of variables (e.g., the
+        // Boolean-function view of ZBDDs), so the apply cache is invalidated
+        // like for a reordering.
+        self.data.pre_gc(self);
         self.data.pre_reorder(self);
         MD::pre_reorder_mut(self);
 
@@ -804,6 +808,8 @@ where
 
         self.data.post_reorder(self);
         MD::post_reorder_mut(self);
+        // SAFETY: We called `pre_gc`, the variables are added.
+        unsafe { self.data.post_gc(self) };
 
         range
     }
@@ -813,6 +819,10 @@ where
         &mut self,
         names: impl IntoIterator<Item = S>,
     ) -> Result<Range<VarNo>, DuplicateVarName> {
+        // Memoised results may depend on the set of variables (e.g., the
+        // Boolean-function view of ZBDDs), so the apply cache is invalidated
+        // like for a reordering.
+        self.data.pre_gc(self);
         self.data.pre_reorder(self);
         MD::pre_reorder_mut(self);
 
@@ -833,6 +843,8 @@ where
 
             this.data.post_reorder(this);
             MD::post_reorder_mut(this);
+            // SAFETY: We called `pre_gc`, the variables are added.
+            unsafe { this.data.post_gc(this) };
         });
 
         let mut names = names.into_iter();
@@ -856,6 +868,10 @@ where
             return self.add_named_vars(map.into_names_iter());
         }
 
+        // Memoised results may depend on the set of variables (e.g., the
+        // Boolean-function view of ZBDDs), so the apply cache is invalidated
+        // like for a reordering.
+        self.data.pre_gc(self);
         self.data.pre_reorder(self);
         MD::pre_reorder_mut(self);
 
@@ -871,6 +887,8 @@ where
 
         self.data.post_reorder(self);
         MD::post_reorder_mut(self);
+        // SAFETY: We called `pre_gc`, the variables are added.
+        unsafe { self.data.post_gc(self) };
 
         Ok(0..n)
     }
